@@ -11,6 +11,7 @@ CONSTANTS
   TickSteps = {1, 2, 3}
   MaxTracked = 1000
   SweepCap = 0
+  IndexMode = "exact"
 INVARIANTS OneRecordPerRegistration PostSweepExact ExpiredNeverMatchesAfterSweep
 POSTCONDITION Post
 CHECK_DEADLOCK FALSE
